@@ -20,7 +20,7 @@ from ..netsim import iso_time, _ENUMS
 
 ID = "C15"
 ENGINE = "sched"
-RUNS = {"quick": 40000, "thorough": 600000}
+RUNS = {"quick": 30000, "thorough": 450000}
 DOUBLE = {"quick": 64, "thorough": 600}
 STEP_CAP = 200_000
 RULE_TEXT = ("one run = one seeded plan (router MIB, 0-4 sequential set-up operations, 2-4 actor threads x 1-3 operations: originate "
@@ -39,8 +39,9 @@ ASSUMPTIONS = ["pre-emption granularity is one bytecode instruction of router.py
                "timer intervals are ignored: an armed timer may fire at any later scheduling point",
                "cbf-sent-after-cancel is judged only when the packet was buffered before the cancelling reception began and the timer "
                "callback started after that reception returned (a duplicate processed before the packet is buffered is counted as a probe)",
-               "a buffered GUC that is never sent is explained by any location-service give-up that ended after the request began, unless an "
-               "effective LS reply was processed entirely between the request and that give-up",
+               "a buffered GUC that is never sent is explained by any location-service give-up that ended after the request began (also when a "
+               "reply was processed in between and a concurrent request had opened a new lookup: counted as a probe), unless a later request "
+               "for the same destination was flushed by a reply while the earlier one vanished",
                "LS retransmissions that continue after the reply (timer callback already running when the reply is processed) do not contradict the statement; they are counted as a probe",
                "position-vector fields are attributed to position reports with a tolerance of one unit; a field that matches no report is a probe, not a verdict"]
 EXPECTED_PROBES = ["two-threads-in-get-sequence-number", "cbf-buffered", "cbf-expiry-raced-cancel", "cbf-cancelled-before-expiry",
@@ -146,7 +147,7 @@ def gen_plan(run_seed: int, tier: str) -> dict:
 
     # peers: 0,1 GBC sources; 2 known destination (neighbour); 3,4 unknown destinations; 5 requester; 6,7 others
     KNOWN, U1, U2 = 2, 3, 4
-    focus = r.choice(["mix", "mix", "sn", "cbf", "cbf", "ls", "ls", "pv"])
+    focus = r.choice(["mix", "mix", "sn", "cbf", "cbf", "ls", "ls", "ls", "pv"])
     cfg["focus"] = focus
     pre = []
     if r.random() < 0.8:
@@ -238,10 +239,11 @@ def gen_plan(run_seed: int, tier: str) -> dict:
             return rx("gucfwd", pkt_guc_fwd(6, KNOWN))
         return {"k": "gnss", "tpv": tpv()}
 
-    nth = r.choice([2, 2, 3, 3, 4])
+    nth = r.choice([2, 2, 2, 3, 3, 4])
     ops = []
+    small = r.random() < 0.35            # many tiny plans: pairwise races, few lock events, cheap runs
     for th in range(nth):
-        for _ in range(r.choice([1, 1, 2, 2, 3])):
+        for _ in range(1 if small else r.choice([1, 1, 2, 2, 3])):
             op = draw(th)
             op = dict(op)
             op["th"] = th
@@ -286,13 +288,14 @@ class _Dummy:
 
 
 class _Run:
-    def __init__(self, plan: dict, sched_cfg: dict, n_est):
+    def __init__(self, plan: dict, sched_cfg: dict, n_est, n_sync=None):
         self.plan = plan
         self.cfg = plan["config"]
         import flexstack.geonet.router as gr
         import flexstack.geonet.location_table as lt
         self.gr, self.lt = gr, lt
-        self.sc = S.Scheduler([gr, lt], sched_cfg, plan.get("sched_seed", 0), step_cap=STEP_CAP, n_est=n_est, t0_us=self.cfg["t0_us"])
+        self.sc = S.Scheduler([gr, lt], sched_cfg, plan.get("sched_seed", 0), step_cap=STEP_CAP, n_est=n_est, t0_us=self.cfg["t0_us"],
+                              n_sync_est=n_sync)
         self.ops = []                       # [(label, op)] label = "pre0".. / int index into plan["ops"]
         self.frames: dict = {}
         self.op_exc: dict = {}
@@ -337,6 +340,10 @@ class _Run:
         self.gn.register_indication_callback(lambda ind: run.sc.note("ind", bytes(ind.data)))
         self.btp.freeze_callbacks()
         self.gn.sequence_number = self.cfg["sn0"]
+        for owner, pre in ((self.gn, "router."), (self.gn.location_table, "location_table.")):
+            for name, val in vars(owner).items():
+                if isinstance(val, S.SimLock):
+                    val.name = pre + name
         p = ego["pos"]
         self.tpvs = [{"lat": p[0], "lon": p[1], "speed_cms": 25, "h_ddeg": 5, "unix_s": self.cfg["t0_us"] // 1_000_000 - 45}]
         self.gn.refresh_ego_position_vector(self._tpv_dict(self.tpvs[0]))
@@ -477,9 +484,7 @@ class _Run:
             self.violate("thread-raised", f"{type(e).__name__}:timer:{fn.lstrip('_')}" if name.startswith("timer") else f"{type(e).__name__}:{name}",
                          f"thread {name} died with {e!r}")
         if sc.deadlock is not None:
-            kinds = sorted({kind_of.get(sc.threads[i].tag, sc.threads[i].name.split(':')[-1]) for (i, _, _, _) in sc.deadlock})
-            self.violate("deadlock", "‖".join(kinds), "every live thread is blocked: " +
-                         "; ".join(f"{n} waits for lock #{ls} held by {o}" for (_, n, ls, o) in sc.deadlock))
+            self.violate("deadlock", sc.deadlock_key(), "every live thread is blocked: " + sc.deadlock_text())
         if sc.cap_hit:
             self.violate("step-cap", "cap", f"the run did not finish within {STEP_CAP} traced instructions")
 
@@ -523,7 +528,7 @@ class _Run:
                              f"position reports: " + ", ".join(f"{f}=report#{sorted(m)[0]}" for f, m in match.items()))
             else:
                 self.probe("pv-checked")
-            if any(inv[g] < t["seq"] and ret.get(g, 1 << 60) > (inv.get(t["op"], t["seq"]) if t["op"] is not None else t["seq"]) for g in gnss_ops):
+            if any(g in inv and inv[g] < t["seq"] and ret.get(g, 1 << 60) > (inv.get(t["op"], t["seq"]) if t["op"] is not None else t["seq"]) for g in gnss_ops):
                 self.probe("gnss-raced-origination")
 
         # ---- contention-based forwarding
@@ -637,16 +642,30 @@ class _Run:
                 continue
             if not quiescent:
                 continue
-            explained = False
-            for (us, ue) in giveups.get(d, []):
-                if ue > inv[label] and not any(ri > ret[label] and rr < us for (ri, rr, _) in replies.get(d, [])):
-                    explained = True
-                    break
-            if not explained:
-                rs = [(ri, rr, rl) for (ri, rr, rl) in replies.get(d, [])]
-                self.violate("ls-request-lost", "req-guc‖" + ("rx-lsrep" if rs else "timer:ls_retransmit"),
+            later_giveups = [(us, ue) for (us, ue) in giveups.get(d, []) if ue > inv[label]]
+            rs = [(ri, rr) for (ri, rr, _) in replies.get(d, [])]
+            if not later_giveups:
+                self.violate("ls-request-lost", "req-guc‖timer:ls_retransmit/lookup-orphaned",
                              f"the GeoUnicast request {label} (log positions {inv[label]}..{ret[label]}) was buffered for the location service and "
-                             f"never transmitted; LS replies processed at {[(a_, b_) for (a_, b_, _) in rs]}, give-ups at {giveups.get(d, [])}")
+                             f"never transmitted: the lookup was neither answered nor ever given up (no retransmit timer left); LS replies "
+                             f"processed at {rs}, give-ups at {giveups.get(d, [])}")
+                continue
+            if any(ri > ret[label] and rr < us for (ri, rr) in rs for (us, ue) in later_giveups):
+                # dropped after the final retry of a lookup that a concurrent request started while the reply was being processed:
+                # literally "dropped after the final retry"; no sequential order gives it, but the statement does not exclude it
+                self.probe("ls-dropped-although-reply-processed")
+            # requests buffered for one destination leave the buffer together: a later one flushed by a reply while this one vanished
+            for l2, op2 in self.ops:
+                if l2 == label or op2["k"] != "req" or op2["type"] != "guc" or op2["dest"] != op["dest"] or l2 not in ret or inv[l2] < ret[label]:
+                    continue
+                b2 = bytes.fromhex(op2["payload"])
+                flushed = [t for t in guc_tx if t["p"]["so"]["addr"]["mid"] == ego_mac and b2 in t["p"]["payload"] and t["op"] != l2
+                           and t["op"] is not None and kind_of.get(t["op"]) == "rx-lsrep"]
+                if flushed and not any(inv[label] < ue and us < flushed[0]["seq"] for (us, ue) in giveups.get(d, [])):
+                    self.violate("ls-request-lost", "req-guc‖rx-lsrep/later-request-flushed-earlier-vanished",
+                                 f"the GeoUnicast request {label} was buffered for the location service (log positions {inv[label]}..{ret[label]}) "
+                                 f"before request {l2} for the same destination ({inv[l2]}..{ret[l2]}); the LS reply flushed {l2} (transmitted at "
+                                 f"position {flushed[0]['seq']}) but {label} was never transmitted and no give-up happened in between")
         # zombie retransmissions (Appendix A #26): LS requests still sent after the reply although no new lookup began
         for d, rl in replies.items():
             for (ri, rr, rlabel) in rl:
@@ -671,6 +690,8 @@ class _Run:
             self.probe("preemption-inside-lock-free-region", sc.preempt_free)
         if sc.preempt_held:
             self.probe("preemption-while-holding-lock", sc.preempt_held)
+        if sc.preempt_sync:
+            self.probe("preemption-at-lock-boundary", sc.preempt_sync)
 
     # ---------------------------------------------------------------- result
     def result(self) -> dict:
@@ -704,12 +725,12 @@ class _Run:
 
 def execute(plan: dict) -> dict:
     cfg = dict(plan["sched"])
-    n_est = None
+    n_est = n_sync = None
     if cfg.get("strategy") in ("pct", "one"):
         dry = _Run(plan, {"strategy": "serial"}, None)
         dry.go()
-        n_est = max(1, dry.sc.steps)
-    run = _Run(plan, cfg, n_est)
+        n_est, n_sync = max(1, dry.sc.steps), max(1, dry.sc.sync_events)
+    run = _Run(plan, cfg, n_est, n_sync)
     run.go()
     run.judge()
     return run.result()
